@@ -256,12 +256,33 @@ pub fn promises(rng: &mut Rng, tag: usize) -> Template {
     }
 }
 
+/// objects that hold only immediates when they are created and receive the only reference to a
+/// heap object later (vector-set!, set-car!, set! of a captured variable, vector-fill!)
+pub fn late_store(rng: &mut Rng, tag: usize) -> Template {
+    let n = rng.range(1, 40);
+    Template {
+        name: "late-store",
+        forms: vec![
+            format!(
+                "(define (late{t} n) (let ((v (make-vector 4 0)) (w (vector 1 2 3)) (p (cons 1 2)) (c 0)) (vector-set! v 1 (list n n)) (vector-fill! w (vector n)) (set-car! p (t-build 3)) (set-cdr! p (number->string n)) (set! c (list 'c n)) (t-build {g}) (list (vector-ref v 1) w p c)))",
+                t = tag,
+                g = rng.range(5, 200)
+            ),
+            format!("(late{} {})", tag, n),
+            format!("(define lv{} (make-vector 3 #f))", tag),
+            format!("(vector-set! lv{} 0 (t-build {}))", tag, n),
+            format!("(t-repeat 2 (lambda () (t-build {})))", rng.range(5, 300)),
+            format!("(list lv{t} (late{t} 2))", t = tag),
+        ],
+    }
+}
+
 pub fn mixed_session(rng: &mut Rng) -> (Vec<String>, Vec<&'static str>) {
     let mut forms = prelude_forms();
     let mut names = vec![];
     let n = 1 + rng.usize(4);
     for tag in 0..n {
-        let t = match rng.below(13) {
+        let t = match rng.below(15) {
             0 => list_builder(rng, tag),
             1 => vectors(rng, tag),
             2 => strings_and_symbols(rng, tag),
@@ -279,6 +300,7 @@ pub fn mixed_session(rng: &mut Rng) -> (Vec<String>, Vec<&'static str>) {
             }
             9 | 10 => long_procedure(rng, tag),
             11 => alists_qq(rng, tag),
+            13 | 14 => late_store(rng, tag),
             _ => promises(rng, tag),
         };
         names.push(t.name);
